@@ -73,6 +73,8 @@ type world struct {
 	order    []string
 	disc     map[string]int
 	late     int64
+	gateOnly string        // when set, only this namespace is gated
+	slowDisc time.Duration // disconnecting handlers of the other namespaces take this long
 	gate     chan struct{} // when set, the first middleware of every namespace blocks on it
 	inGate   chan string
 	evChains map[string][]bool // per-namespace event middleware chain (true = accept)
@@ -88,7 +90,11 @@ func (w *world) url() string {
 // newWorld creates the namespaces with their middleware chains. A final recorder middleware
 // (always accepting) attaches the handlers, so that they exist before the CONNECT reply.
 func newWorld(chains map[string][]verdict, cfg *sio.ServerConfig, gated bool, usePx bool, evChains map[string][]bool) (*world, map[string]int, map[string]string, error) {
-	w := &world{socks: map[string]sio.ServerSocket{}, disc: map[string]int{}, evChains: evChains}
+	return newWorldG(chains, cfg, gated, "", 0, usePx, evChains)
+}
+
+func newWorldG(chains map[string][]verdict, cfg *sio.ServerConfig, gated bool, gateOnly string, slowDisc time.Duration, usePx bool, evChains map[string][]bool) (*world, map[string]int, map[string]string, error) {
+	w := &world{socks: map[string]sio.ServerSocket{}, disc: map[string]int{}, evChains: evChains, gateOnly: gateOnly, slowDisc: slowDisc}
 	if gated {
 		w.gate = make(chan struct{})
 		w.inGate = make(chan string, 16)
@@ -101,7 +107,7 @@ func newWorld(chains map[string][]verdict, cfg *sio.ServerConfig, gated bool, us
 			n := io.Of(nsp)
 			name := n.Name()
 			lens[name] = len(chain) + 1
-			if gated {
+			if gated && (gateOnly == "" || gateOnly == name) {
 				lens[name]++
 				n.Use(func(s sio.ServerSocket, h *sio.Handshake) any {
 					w.inGate <- name
@@ -146,7 +152,12 @@ func newWorld(chains map[string][]verdict, cfg *sio.ServerConfig, gated bool, us
 					vtrace.Emit("h.event", "sid", sid, "nsp", name, "tag", tag)
 					ack(tag)
 				})
-				s.OnDisconnecting(func(r sio.Reason) { vtrace.Emit("h.disconnecting", "sid", sid, "reason", string(r)) })
+				s.OnDisconnecting(func(r sio.Reason) {
+					vtrace.Emit("h.disconnecting", "sid", sid, "reason", string(r))
+					if w.slowDisc > 0 {
+						time.Sleep(w.slowDisc)
+					}
+				})
 				s.OnDisconnect(func(r sio.Reason) {
 					vtrace.Emit("h.disconnect", "sid", sid, "nsp", name, "reason", string(r))
 					w.mu.Lock()
@@ -298,9 +309,14 @@ func (e *env) c06(cs c06case, cut int64, cutUp bool) {
 	if cs.cause == "ping-timeout" {
 		cfg.EIO.PingInterval, cfg.EIO.PingTimeout = time.Second, time.Second
 	}
-	gated := cs.phase == "middleware"
+	gated := cs.phase == "middleware" || cs.phase == "second-middleware"
 	usePx := cs.cause == "tcp-cut" || cs.cause == "byte-cut"
-	w, lens, errmsg, err := newWorld(accept1, cfg, gated, usePx, nil)
+	gateOnly, slow := "", time.Duration(0)
+	if cs.phase == "second-middleware" {
+		// "/" is connected (its disconnecting handler is slow); "/a" sits in its first middleware
+		gateOnly, slow = "/a", 250*time.Millisecond
+	}
+	w, lens, errmsg, err := newWorldG(accept1, cfg, gated, gateOnly, slow, usePx, nil)
 	if err != nil {
 		e.res.Inconclusive("rig", err.Error(), e.scen)
 		return
@@ -348,7 +364,9 @@ func (e *env) c06(cs c06case, cut int64, cutUp bool) {
 				socks = append(socks, s)
 				s.Connect()
 			}
-			if !gated && cs.cause != "byte-cut" {
+			if cs.phase == "second-middleware" {
+				rig.WaitUntil(3*time.Second, func() bool { return connectedN() >= 1 && registered() >= 1 })
+			} else if !gated && cs.cause != "byte-cut" {
 				rig.WaitUntil(3*time.Second, func() bool { return connectedN() >= 2 })
 				for _, s := range socks {
 					s := s
@@ -363,8 +381,12 @@ func (e *env) c06(cs c06case, cut int64, cutUp bool) {
 		}
 	}
 	if gated {
-		// both admissions are inside their first middleware
-		for i := 0; i < 2; i++ {
+		// the gated admissions are inside their first middleware
+		ng := 2
+		if gateOnly != "" {
+			ng = 1
+		}
+		for i := 0; i < ng; i++ {
 			select {
 			case <-w.inGate:
 			case <-time.After(3 * time.Second):
@@ -421,8 +443,8 @@ func (e *env) c06(cs c06case, cut int64, cutUp bool) {
 		w.px.CutAll() // whatever survived the cut point is cut now
 	}
 	if gated {
-		time.Sleep(30 * time.Millisecond)
-		close(w.gate) // the middlewares return after the connection ended
+		time.Sleep(60 * time.Millisecond)
+		close(w.gate) // the middlewares return after the connection ended (second-middleware: while "/" is still being closed)
 		time.Sleep(60 * time.Millisecond)
 	}
 	if allclosed {
@@ -492,6 +514,9 @@ func runC06(e *env) {
 		{"tcp-cut", "idle", []string{"transport close", "transport error"}},
 		{"tcp-cut", "burst", []string{"transport close", "transport error"}},
 		{"tcp-cut", "middleware", []string{"transport close", "transport error", "forced server close"}},
+		{"tcp-cut", "second-middleware", []string{"transport close", "transport error", "forced server close"}},
+		{"client-close", "second-middleware", []string{"transport close", "forced close", "transport error", "forced server close"}},
+		{"server-close", "second-middleware", anyReason},
 		{"ping-timeout", "idle", []string{"ping timeout"}},
 	}
 	for _, c := range cases {
@@ -576,6 +601,35 @@ func (e *env) c12chain(chain []verdict, nsp string, nclients int) {
 	e.res.Case(fmt.Sprint(chain, nsp), len(chain) > 0)
 }
 
+// the connection ends while an early middleware runs: the rest of the chain still decides
+func (e *env) c12closeDuringChain(chain []verdict) {
+	vtrace.Take()
+	vtrace.ResetIDs()
+	w, lens, errmsg, err := newWorldG(map[string][]verdict{"/": chain}, nil, true, "", 0, false, nil)
+	if err != nil {
+		e.res.Inconclusive("rig", err.Error(), e.scen)
+		return
+	}
+	defer w.close()
+	id := e.begin("c12-close-during-chain", lens, errmsg, nil, "chain", fmt.Sprint(chain))
+	m := rig.NewManager(w.url(), []string{"websocket"}, &sio.ManagerConfig{NoReconnection: true})
+	s := m.Socket("/", nil)
+	s.Connect()
+	select {
+	case <-w.inGate:
+	case <-time.After(3 * time.Second):
+		e.res.Inconclusive("c12", "admission never reached the first middleware", id)
+	}
+	m.Close() // the connection ends while the first middleware is still running
+	time.Sleep(80 * time.Millisecond)
+	close(w.gate)
+	time.Sleep(120 * time.Millisecond)
+	w.waitDisconnects(2 * time.Second)
+	e.quiesce(w, true, "")
+	e.end()
+	e.res.Case(fmt.Sprint("close-during-chain", chain), true)
+}
+
 // event middlewares: chains over {accept, reject} x event signatures
 func (e *env) c12events(ch []bool) {
 	vtrace.Take()
@@ -642,6 +696,9 @@ func runC12(e *env) {
 	}
 	for _, ch := range [][]bool{{}, {true}, {false}, {true, true}, {true, false}, {false, true}} {
 		e.c12events(ch)
+	}
+	for _, ch := range [][]verdict{{{"accept"}, {"error"}}, {{"accept"}, {"accept"}, {"string"}}, {{"struct"}}, {{"accept"}, {"accept"}}} {
+		e.c12closeDuringChain(ch)
 	}
 }
 
@@ -740,14 +797,44 @@ func (e *env) c05multiplex(rng *rand.Rand, nsps []string) {
 	if len(gone) != 1 || len(alive) != len(nsps)-1 {
 		e.res.Violation("c05-disconnect-scope", fmt.Sprintf("disconnecting %s: gone=%d alive=%d of %d", victim, len(gone), len(alive), len(nsps)), id, nsps)
 	}
-	for _, n := range nsps {
-		if n != victim {
-			tag := fmt.Sprintf("%s#after", name(n))
+	emitOthers := func() {
+		for _, n := range nsps {
+			if n != victim {
+				tag := fmt.Sprintf("%s#after", name(n))
+				vtrace.Emit("client.emit", "nsp", name(n), "tag", tag)
+				socks[n].Emit("ev", tag)
+			}
+		}
+		time.Sleep(60 * time.Millisecond)
+	}
+	// joining the namespace again on the shared connection must work and must not disturb the others
+	rejoinNow := func() {
+		before := len(w.order)
+		socks[victim].Connect()
+		ok := rig.WaitUntil(3*time.Second, func() bool { w.mu.Lock(); defer w.mu.Unlock(); return len(w.order) > before }) &&
+			rig.WaitUntil(2*time.Second, func() bool { return socks[victim].Connected() })
+		if !ok {
+			e.res.Violation("c05-rejoin", fmt.Sprintf("joining %s again on the shared connection failed", victim), id, nsps)
+		}
+		for _, n := range nsps {
+			if !socks[n].Connected() {
+				e.res.Violation("c05-rejoin-disturbed", fmt.Sprintf("after rejoining %s, namespace %s is no longer connected", victim, n), id, nsps)
+			}
+			tag := fmt.Sprintf("%s#rejoined", name(n))
 			vtrace.Emit("client.emit", "nsp", name(n), "tag", tag)
 			socks[n].Emit("ev", tag)
 		}
+		time.Sleep(80 * time.Millisecond)
 	}
-	time.Sleep(60 * time.Millisecond)
+	// the next packet of the connection after the disconnect is either for the same namespace (rejoin first)
+	// or for another one
+	if e.scen%2 == 0 {
+		rejoinNow()
+		emitOthers()
+	} else {
+		emitOthers()
+		rejoinNow()
+	}
 	m.Close()
 	w.waitDisconnects(3 * time.Second)
 	e.quiesce(w, true, "")
